@@ -65,6 +65,10 @@ LABEL_POOLS = [['a', 'b', 'c', 'd'], ['d', 'c', 'b', 'a'], ['x10', 'x9', 'x1', '
                ['a', 'ab', 'abc', 'abd'], ['abd', 'a', 'abc', 'ab'], ['\u00e9', '\u00e9a', 'z', 'zz\u00fc'], ['a', 'a ', 'b  ', 'b'],
                ['long label', 'lo', 'long', 'l']]
 PREFIX_POOLS = LABEL_POOLS[4:]
+# label sets in which two DIFFERENT (x label, y label) pairs have the same concatenation ('1' + '11' = '11' + '1', 'a' + 'ba' = 'ab' + 'a'):
+# any implementation that identifies a pair of labels by a joined string confuses them (round 5, seeded change C09-9)
+# (no numeric-looking labels: Data() turns columns of such strings into numbers, which is a different, numeric axis)
+COLLIDE_POOLS = [['p', 'pp', 'ppp', 'q'], ['a', 'b', 'ab', 'ba'], ['x', 'x,', ',x', 'x,x'], ['u', 'u_', '_u', 'u_u']]
 
 
 def make_axis(kind, labels, values, order=None):
@@ -908,6 +912,12 @@ def stream_polygon_like(R):
             xo = list(rng.choice(list(itertools.permutations(px_[:nx] + (['zz'] if rng.random() < 0.3 else [])))))
             yo = list(rng.choice(list(itertools.permutations(py_[:ny] + (['zz'] if rng.random() < 0.3 else [])))))
         combo = rng.choice(['cat/cat', 'cat/num', 'num/cat', 'num/num'])
+        if combo == 'cat/cat' and rng.random() < 0.45:
+            # both axes from one pool whose label pairs collide when joined; the data grid below holds every pair
+            cp = COLLIDE_POOLS[rng.randrange(len(COLLIDE_POOLS))]
+            ox = list(rng.choice(list(itertools.permutations(cp))))
+            oy = list(rng.choice(list(itertools.permutations(cp))))
+            xo = yo = None
         truth = Truth.of_spec(spec)
         vals = sorted(set([k / 4 for k in range(-6, 18)] + [float(round_grid(float(b[1]) + off)) for b in G.boundary_points(truth, rng, 10)
                                                             for off in (0.0, 3e-8, -3e-8, 2.0 ** -10, -2.0 ** -10)]))
